@@ -61,6 +61,9 @@ def run(ctx, replay):
         # make sure every shape value occurs at least once with a retry and a restart
         if not behs:
             raise vlib.Infra("no behaviours")
+        for k, b in enumerate(behs):    # harness-only dimension: recipients that differ only by letter case
+            if k % 3 == 1:
+                b["caseVar"] = True
     else:
         obj = json.load(open(replay))
         if "behaviour" not in obj:      # a crash run (DamagedMessageHanded)
